@@ -211,6 +211,8 @@ func (g *srcGen) act(body string) string {
 	l, rt := g.d.left(), g.d.right()
 	if g.r.Chance(15) {
 		l += "- "
+	} else if g.r.Chance(4) {
+		l += "-" + g.r.Pick([]string{"", "\t", "\n", "\r", "  "}) // a minus that is not the trim marker
 	} else {
 		l += sp(g.r)
 	}
